@@ -29,6 +29,26 @@ def run(ctx):
                   what="bit layout of the castling rights / en-passant nibble is inconsistent", found=found)
     r5(ctx, F, fn)
     r6(ctx, F, fn)
+    # R7 = C12.U6: the position a move list is played on is the one the command states
+    from . import p12, p11
+    before, nv = len(ctx.instances), len(ctx.violations)
+    p12.u6(ctx, F, "C12.U6")
+    for i in ctx.instances[before:]:
+        i["rule"] = "C02.R7(" + i["rule"] + ")"
+    for v in ctx.violations[nv:]:
+        v["rule"] = "C02.R7(" + v["rule"] + ")"
+        v["key"] = "C02.R7|" + v["key"]
+    # R8 = the writer half of C11: the property is observed through Game::fen() (fields 1-4), which must render the state push left
+    before, nv = len(ctx.instances), len(ctx.violations)
+    p11._FACTS[0] = F
+    em, _sym = p11.emissions(F.fn(p11.WRITER), F, recv="result")
+    p11.writer_board(ctx, F, em)
+    p11.writer_fields(ctx, F, em)
+    for i in ctx.instances[before:]:
+        i["rule"] = "C02.R8(" + i["rule"] + ")"
+    for v in ctx.violations[nv:]:
+        v["rule"] = "C02.R8(" + v["rule"] + ")"
+        v["key"] = "C02.R8|" + v["key"]
 
 
 def r123(ctx, F, rules=("R1", "R2", "R3"), prefix="C02"):
